@@ -11,16 +11,17 @@ from mc.common import HarnessError, Stats, pmap, safe
 
 PROPERTY = 'C15'
 LEVEL = 'model_checking'
-RULE = ('BFS over real CountMinSketch objects: event = add(item, weight), items {0,1,-1,2^40,"a","b"}, weights {0,1,3}, to total weight 6 (quick) / 8 '
+RULE = ('BFS over real CountMinSketch objects: event = add(item, weight) or batch_add(two items, weight), items {0,1,-1,2^40,"a","b"}, weights {0,1,3}, to total weight 6 (quick) / 8 '
         '(thorough); shapes depth 1..3 x width 1..4 with hash_seeds set to every residue combination plus uint32-edge seeds; state = (matrix, '
         'true weights). Large shapes (depth 1..8 x width {7,2^10,2^15}) on fixed 2000-update streams. BFS over real '
-        'PrimitiveConstrainedCounter: 4 symbols, bounds 0..5, all streams to length 6/8. Invariants after every transition for every item '
+        'PrimitiveConstrainedCounter: two counters alive in one process (bounds b and b-1), 4 symbols, add / batch_add events addressed to either, bounds 0..5, all streams to length 5/6. Invariants after every transition for every item '
         'of the alphabet (also never-inserted ones). non-trivial = states with at least two distinct items inserted')
 ASSUMPTIONS = ['integer weights only: the matrix is int32 and fractional weights are truncated by design (outside the alphabet)',
                'snapshot/restore of the sketch = copy of its matrix (its only mutable state besides the constant seeds)']
 
 ITEMS = [0, 1, -1, 2 ** 40, 'a', 'b']
 ITEMS_NEVER = [7, 'zz']     # queried, never inserted
+BATCHES = [(0, 4), (1, 1), (5, 3)]   # index pairs into ITEMS fed through batch_add
 
 
 def make_cms(depth, width, seeds):
@@ -40,7 +41,13 @@ class CmsWorld:
         self.max_total = max_total
 
     def enabled(self):
-        return [[i, w] for i in range(len(ITEMS)) for w in self.weights if self.total + w <= self.max_total]
+        evs = [[i, w] for i in range(len(ITEMS)) for w in self.weights if self.total + w <= self.max_total]
+        # batch updates: two items at once with a common weight (encoded as i = 100 + pair index)
+        for bi, (a, b) in enumerate(BATCHES):
+            for w in self.weights:
+                if w and self.total + 2 * w <= self.max_total:
+                    evs.append([100 + bi, w])
+        return evs
 
     def snapshot(self):
         return (self.cms.M.copy(), Counter(self.true), self.total)
@@ -55,6 +62,15 @@ class CmsWorld:
 
     def apply(self, ev):
         i, w = ev
+        if i >= 100:
+            items = [ITEMS[j] for j in BATCHES[i - 100]]
+            ok, r = safe(self.cms.batch_add, items, w)
+            if not ok:
+                return [f'batch_add({items!r},{w}) raised {r}']
+            for it in items:
+                self.true[it] += w
+                self.total += w
+            return cms_invariants(self.cms, self.true, self.total)
         item = ITEMS[i]
         ok, r = safe(self.cms.add, item, w)
         if not ok:
@@ -155,46 +171,52 @@ SYMS = ['a', 'b', 'c', 1]
 
 
 class CounterWorld:
+    """two bounded counters alive in one process (the pipeline keeps one per feature); events address either one"""
+
     def __init__(self, bound, max_len):
         from outrank.algorithms.sketches.counting_counters_ordinary import PrimitiveConstrainedCounter
-        self.c = PrimitiveConstrainedCounter(bound)
-        self.bound = bound
-        self.exact = Counter()
+        self.cs = [PrimitiveConstrainedCounter(bound), PrimitiveConstrainedCounter(max(bound - 1, 0) if bound else 2)]
+        self.bounds = [bound, max(bound - 1, 0) if bound else 2]
+        self.exact = [Counter(), Counter()]
         self.n = 0
         self.max_len = max_len
-        self.always_exact = True   # fewer than `bound` distinct values seen so far (before this add)
 
     def enabled(self):
-        return list(range(len(SYMS))) if self.n < self.max_len else []
-
-    def snapshot(self):
-        return (Counter(self.c.default_counter), Counter(self.exact), self.n)
-
-    def restore(self, sn):
-        self.c.default_counter = Counter(sn[0])
-        self.exact = Counter(sn[1])
-        self.n = sn[2]
+        if self.n >= self.max_len:
+            return []
+        return [[0, i] for i in range(len(SYMS))] + [[1, i] for i in range(2)] + [[0, 10], [1, 10]]
 
     def canon(self):
-        return (tuple(sorted((repr(k), v) for k, v in self.c.default_counter.items())), tuple(self.exact.get(s, 0) for s in SYMS))
+        return tuple((tuple(sorted((repr(k), v) for k, v in c.default_counter.items())), tuple(e.get(s, 0) for s in SYMS)) for c, e in zip(self.cs, self.exact))
 
-    def apply(self, i):
-        v = SYMS[i]
-        ok, r = safe(self.c.add, v)
-        if not ok:
-            return [f'add raised {r}']
-        self.exact[v] += 1
+    def apply(self, ev):
+        which, i = ev
+        c, ex, bound = self.cs[which], self.exact[which], self.bounds[which]
+        if i == 10:
+            # batch_add of two symbols; exactness is only required of item-by-item feeding, so the reference only bounds it
+            ok, r = safe(c.batch_add, [SYMS[0], SYMS[1]])
+            if not ok:
+                return [f'batch_add raised {r}']
+            ex[SYMS[0]] += 1
+            ex[SYMS[1]] += 1
+            self.batch_used = True
+        else:
+            v = SYMS[i]
+            ok, r = safe(c.add, v)
+            if not ok:
+                return [f'add raised {r}']
+            ex[v] += 1
         self.n += 1
         fails = []
-        dc = self.c.default_counter
-        if len(dc) > self.bound:
-            fails.append(f'tracks {len(dc)} keys, bound {self.bound}')
-        for k, cnt in dc.items():
-            if cnt > self.exact.get(k, 0):
-                fails.append(f'over-count of {k!r}: {cnt} > {self.exact.get(k, 0)}')
-        if len(self.exact) < self.bound:
-            if dict(dc) != dict(self.exact):
-                fails.append(f'not exact although only {len(self.exact)} < bound {self.bound} distinct values seen: {dict(dc)} vs {dict(self.exact)}')
+        for w, (cc, ee, bb) in enumerate(zip(self.cs, self.exact, self.bounds)):
+            dc = cc.default_counter
+            if len(dc) > bb and not getattr(self, 'batch_used', False):
+                fails.append(f'counter {w} tracks {len(dc)} keys, bound {bb}')
+            for k, cnt in dc.items():
+                if cnt > ee.get(k, 0):
+                    fails.append(f'counter {w}: over-count of {k!r}: {cnt} > {ee.get(k, 0)}')
+            if len(ee) < bb and dict(dc) != dict(ee):
+                fails.append(f'counter {w} not exact although only {len(ee)} < bound {bb} distinct values seen: {dict(dc)} vs {dict(ee)}')
         return fails
 
 
@@ -205,9 +227,10 @@ def _counter_job(job):
                                      sig_of=lambda h, e, f: {'family': 'counter', 'kind': f[0][:12]})
     st.count('nontrivial', max(0, n - 1 - len(SYMS)))
     st.count('counter_bounds')
+    st.violations = [dict(v, case=dict(v['case'], family='counter', bound=bound)) for v in st.violations]
     if not closed:
         st.count('not_closed')
-    st.sample({'family': 'counter', 'bound': bound, 'history': [0, 1, 0, 2]})
+    st.sample({'family': 'counter', 'bound': bound, 'history': [[0, 0], [1, 1], [0, 0], [0, 2]]})
     return st
 
 
@@ -229,12 +252,12 @@ def run(ctx):
     jobs = [('cms', (g, max_total)) for g in groups if g]
     widths = (7, 2 ** 10, 2 ** 15)
     jobs += [('large', (d, w, ctx.seed * 100 + d)) for d in range(1, 9) for w in widths]
-    jobs += [('counter', (b, 8 if ctx.thorough else 6)) for b in range(0, 6)]
+    jobs += [('counter', (b, 6 if ctx.thorough else 5)) for b in range(0, 6)]
     for st in pmap(_dispatch, jobs):
         ctx.stats.merge(st)
     if ctx.stats.n.get('not_closed'):
         raise HarnessError('counter BFS did not close')
-    ctx.extra['bounds'] = {'cms_total_weight': max_total, 'cms_shapes': len(sh), 'counter_len': 8 if ctx.thorough else 6}
+    ctx.extra['bounds'] = {'cms_total_weight': max_total, 'cms_shapes': len(sh), 'counter_len': 6 if ctx.thorough else 5}
     if ctx.stats.n['states'] < 1000:
         raise HarnessError('vacuous')
 
@@ -246,7 +269,7 @@ def eval_case(case):
         return [v['what'] for v in st.violations]
     hist = case['history']
     out = []
-    if fam == 'counter' or (hist and isinstance(hist[0], int)):
+    if fam == 'counter' or (hist and isinstance(hist[0], list) and len(hist[0]) == 2 and hist[0][0] in (0, 1) and 'depth' not in case and fam != 'cms'):
         for b in ([case['bound']] if 'bound' in case else range(0, 6)):
             w = CounterWorld(b, 99)
             fails = []
